@@ -118,9 +118,18 @@ TDeliver ==
            Res(ch) == IF Live(s) THEN Recv(s, r, c, ch) ELSE RecvDead(s)
            allowed == IF Live(s) THEN AllowedChoices(s, r) ELSE {"good"}
            matching == {i \in 1..6 : ChoiceOrder[i] \in allowed /\ MatchRecv(t, s, r, Res(ChoiceOrder[i]))}
-       IN /\ matching # {}
-          /\ LET first == CHOOSE i \in matching : \A j \in matching : i <= j
-             IN sess' = [sess EXCEPT ![e] = Res(ChoiceOrder[first]).next]
+           \* A TLS 1.3 client whose record boundaries were shifted (a length field changed in flight) can still find a complete,
+           \* unmodified HelloRetryRequest at the front of what it has buffered: it answers it and drops the rest of that "record".
+           \* Nothing in the properties forbids that (the message is what the server sent; a HelloRetryRequest changes no keys);
+           \* the stream stays out of step, so nothing else is expected to come of it.
+           hrrAfterShift == /\ Live(s) /\ s.desync /\ s.role = "C" /\ s.hs = "T13_WAIT_SH" /\ t.hs = "T13_WAIT_SH" /\ ~s.retried
+                            /\ Gates(t) = <<"SERVER_HELLO">> /\ Accs(t) = <<"SERVER_HELLO">>
+                            /\ t.err = 0 /\ t.closed = 0 /\ Len(t.dlv) = 0 /\ t.hc = 0
+       IN IF matching # {}
+          THEN LET first == CHOOSE i \in matching : \A j \in matching : i <= j
+               IN sess' = [sess EXCEPT ![e] = Res(ChoiceOrder[first]).next]
+          ELSE /\ hrrAfterShift
+               /\ sess' = [sess EXCEPT ![e] = [s EXCEPT !.retried = TRUE]]
 
 TSend ==
     /\ IsEvent({"send"})
